@@ -123,6 +123,28 @@ profiles.  The only "evaluation" is `const_eval` of constant expressions / modul
            the name holds something else: unknown).  No step, pair or name is ever fed to the code.  Violated when the next step
            is inevitably reached without an add call, undecided when only through tests the form does not decide, or when the loop /
            the calls are not located (several loops, a normalised copy of the steps, match statements).
+  R12      a builder method that is given a list of items adds one statement per item, in the order given.  Subjects, by role: every
+           `for` loop (and every comprehension handed to extend / `+=`) of a class method of the module whose body adds a statement to a
+           block - an addition to self.tree.children, a call of a package method that adds to the block it is called on (resolved callee,
+           1), a call of `getattr(self, ..)` - and whose iterable is rooted in a parameter of the method (the pair helpers behind header /
+           parameter / strrep, init_kwargs, from_execute_list, from_beacon_gate_option_strings).  3 (the iterable is followed through
+           flow-sensitive reaching definitions to its defining expressions and classified, never evaluated: *given* - the parameter
+           through wrappers that keep every element and the order: `x or []`, list / tuple / iter / enumerate, `.items()` / `.copy()` of the
+           object given, an identity slice, a comprehension without filter; *lossy* - through a projection of the fixed vocabulary
+           `_COLLAPSING` (dict, OrderedDict, set, frozenset, sorted, reversed, dict.fromkeys, Counter, groupby ..., one line of reason
+           each), a dict / set comprehension, a slice with a negative step or a constant cut, a local dict / set that starts empty and is
+           filled inside a loop over the parameter (one level of relay); anything else rooted in a parameter is not understood),
+           2 (facts of dominating branch edges / enclosing conditional expressions: `dict(x)` where isinstance(x, <mapping type>) or
+           hasattr(x, "items" | "keys") holds and nothing was assigned to x is a copy of a mapping, which has one entry per key to begin
+           with - given; CFG of the loop body for "every item passes an addition": the same least-fixpoint must-analysis as R11 without any
+           assumption about the item - violated when the next item is reached without an addition whatever the tests say, or when the edge
+           that passes the item over is chosen by a test that reads loop-carried state (a name defined before the loop and assigned /
+           changed in place inside it: a `seen` set, a counter), undecided when only through other tests; paths that raise are loud and
+           do not count, edges into exception handlers are left out), 6 (slice bounds and insert positions are folded constants).
+           Lemma L9: the grammar lets a statement be repeated in a block (two `header "Set-Cookie" ..` lines, a parameter twice, two
+           strrep rules for one string), the parser keeps one node per statement in source order and as_dict lists them in that order - so
+           the built profile equals the parsed one only if the helper emits one statement per item given, in the order given.
+           `insert(<constant>, ..)` into self.tree.children is a violation (statements come out in another order than the calls).
 """
 
 from __future__ import annotations
@@ -676,7 +698,7 @@ def run(ctx):
         "is an arbitrary STRING and may contain the separator, so the path state must stay a sequence); the cache key of as_dict - the term stored into / compared with the key "
         "attribute, with temporaries, assignment expressions and expression helpers substituted - covers the whole tree (hash(self.tree); a key made of the leaves only, a count, an "
         "identity or the root's name does not see some modification and the stale view stays); a builder method that is given a block adds a node of its own to the parent (not the "
-        "block's root node, which would be one object at every place the block is attached to and can carry only one place name) and writes nothing into the given block's tree; the object stored as the tree of a profile / block is made for it (a parse result, a Tree(..) with a children list of its own, a deep copy) - not the result of a memoised function, an entry of a module-level cache or another object that exists once per process, because the builder methods append in place and every holder of that object would report the modification; every step given to the data-transform builder - a statement name, a (statement, argument) pair as a tuple or as a list - passes a call of add_step / add_termination on every path of the constructor's loop that the form of the step leaves open (a step passed over is missing from tree, text and view, while the same profile written as text has it).  Devices: syntax-tree queries, resolved callees and who-may-write checks, CFG dominance "
+        "block's root node, which would be one object at every place the block is attached to and can carry only one place name) and writes nothing into the given block's tree; the object stored as the tree of a profile / block is made for it (a parse result, a Tree(..) with a children list of its own, a deep copy) - not the result of a memoised function, an entry of a module-level cache or another object that exists once per process, because the builder methods append in place and every holder of that object would report the modification; every step given to the data-transform builder - a statement name, a (statement, argument) pair as a tuple or as a list - passes a call of add_step / add_termination on every path of the constructor's loop that the form of the step leaves open (a step passed over is missing from tree, text and view, while the same profile written as text has it); a builder method that is given a list of items - (name, value) pairs for header / parameter / strrep, keyword arguments, execute / BeaconGate option names - adds its statements in a loop that runs over the items as given (the parameter itself through element- and order-preserving wrappers, not dict(..) / set(..) / sorted(..) / reversed(..) / a dict comprehension / a cutting slice / a dictionary filled per name, which keep one item per name or reorder them) and in which every item passes an addition to the block (no item left out because of the items before it) - a profile may repeat a header, parameter or strrep name, the parsed profile has one statement per line in source order, and the built one must be indistinguishable from it.  Devices: syntax-tree queries, resolved callees and who-may-write checks, CFG dominance "
         "and reachability, facts of dominating branch edges with substituted temporaries (kept symbolic), structural comparison of the "
         "Tree(..) terms built in code with grammar productions, case analysis over the literals the code dispatches on, constant folding "
         "of constant tables.  No code of the package is executed or interpreted on data."
@@ -696,6 +718,8 @@ def run(ctx):
                        "or a call the rule cannot resolve is undecided; memoisers are recognised by the decorator names in _MEMO and by lookups in module-/class-level containers only",
                        "R11 decides the two pair forms (exact builtin tuple / list of length two) and the statement names the loop compares with; other sequence types, pairs of another length, and whether the right one of add_step / add_termination is called "
                        "(R3 does the name sets) are not judged; a step list that is copied / normalised before the loop, several loops, or a match statement are undecided",
+                       "R12 judges multiplicity and order of the statements a list-taking builder method adds (the iterable of the adding loop, passing over of items, insertion at a fixed position), not that the statement is built from the item of the iteration (R3 / R6 judge the tree shape and the token texts); "
+                       "an iterable derived from the parameter through a call the rule does not know, a filtered comprehension, a list relayed through a local list, and items passed over through tests that do not read loop-carried state are undecided; loops over attributes of an object given (from_beacon_config over the settings) and while-loops are not subjects",
                        "builder classes that bind names by means R3 cannot read (metaclass, opaque decorator, dynamic class body): coverage of the grammar alternatives is undecided there"]
     rep.trusted_base = ["lark grammar loader", "CPython ast", "reference data-transform path list in csverif/tables.py",
                         "BUILDER_RULES (builder class -> grammar rules) and DEAD_LIST_PROPS tables in rules/c11.py; HELPER_ARITY fallback for helpers whose tree cannot be read off",
@@ -714,6 +738,8 @@ def run(ctx):
                         "R10: Lark.parse builds a new Tree per call; functools.lru_cache / functools.cache (and decorators of the names in _MEMO) return the object made for the first call with equal arguments; a parameter default is evaluated once",
                         "R11: a (statement, argument) step is a two-element tuple or list (exact builtin types); isinstance / len / == on those and on str behave as the CPython data model says (str, tuple, list are collections.abc Sequences; a tuple or list equals no string); "
                         "a statement is assumed to be able to continue normally (edges into exception handlers are not used as evidence)",
+                        "lemma L9 / R12: the grammar allows a statement to be repeated within a block and the parser keeps one node per statement in source order; dict / set / sorted / reversed / dict.fromkeys / Counter / groupby and slices behave as the CPython documentation says (the `_COLLAPSING` table); "
+                        "list / tuple / iter / enumerate / .items() / .copy() keep every element and the order; **kwargs keeps the order of the call (PEP 468); a mapping has one entry per key",
                         "len(x) / id(x) / hash() of an object whose class defines no __hash__ do not change when the object is modified in place (CPython data model)"]
     g = Grammar(ctx.repo)
     r1(ctx, g)
@@ -738,6 +764,7 @@ def run(ctx):
     r9(ctx)
     r10(ctx)
     r11(ctx)
+    r12(ctx)
 
 
 # ============================================================================================================= R1
@@ -2430,3 +2457,389 @@ def r11(ctx):
                 ctx.ob("R11", "EXIT", f, text, True, f"each of {sorted(names)} given as a string passes a call of add_step / add_termination on every path")
     if not located:
         ctx.undecided("R11", "EXIT", f"{MOD}.py::{cname}", "every step given to the data-transform builder is added", "no loop over the steps given (a parameter) that calls add_step / add_termination located")
+
+
+# ============================================================================================================= R12
+# projections that keep neither every element nor the order of what they are given (fixed vocabulary of the builtins / the standard
+# library, one line of reason each; nothing is evaluated)
+_COLLAPSING = {
+    "dict": "dict(..) keeps one entry per name: of several pairs with one name only the position of the first and the value of the last remain",
+    "OrderedDict": "OrderedDict(..) keeps one entry per name: of several pairs with one name only the position of the first and the value of the last remain",
+    "defaultdict": "a dictionary keeps one entry per name",
+    "fromkeys": "dict.fromkeys(..) keeps one entry per element",
+    "Counter": "a Counter keeps one entry per element",
+    "set": "set(..) keeps one element per value and has no order of its own",
+    "frozenset": "frozenset(..) keeps one element per value and has no order of its own",
+    "sorted": "sorted(..) puts the items into another order than the one given",
+    "reversed": "reversed(..) yields the items back to front",
+    "unique_everseen": "drops every repeated element",
+    "groupby": "itertools.groupby merges neighbouring elements with one key into one group",
+}
+_COLLAPSING_HOMES = ("collections", "itertools", "more_itertools", "builtins", "dict", "OrderedDict")  # `collections.OrderedDict(..)`, `dict.fromkeys(..)`
+_MAPPING_MAKERS = ("dict", "OrderedDict")
+_MAPPING_TYPES = {"dict", "Mapping", "MutableMapping", "OrderedDict", "defaultdict", "ChainMap"}
+_AS_GIVEN_CALLS = ("list", "tuple", "iter", "enumerate")
+_GROWERS = ("add", "append", "extend", "update", "insert", "setdefault", "appendleft", "discard", "remove", "pop", "clear")
+
+
+def _all_params(fn):
+    a = fn.args
+    return [p for p in params(fn) + [x.arg for x in (a.vararg, a.kwarg) if x is not None] if p not in ("self", "cls")]
+
+
+def _is_empty_const(x):
+    return (isinstance(x, (ast.List, ast.Tuple, ast.Dict)) and not getattr(x, "elts", getattr(x, "keys", None))) or (isinstance(x, ast.Constant) and not x.value) \
+        or (_is_call(x, "list", "tuple", "dict") and isinstance(x.func, ast.Name) and not x.args and not x.keywords)
+
+
+def _mapping_fact(ctx, f, node, arg):
+    """Is `arg` (a parameter that nothing has been assigned to) known to be a mapping where `node` is evaluated?  Facts of the dominating
+    branch edges / enclosing conditional expressions: isinstance(arg, <mapping types>) or hasattr(arg, "items" | "keys") holds."""
+    arg = strip_cast(arg)
+    if not isinstance(arg, ast.Name):
+        return False
+    rd = q_reaching_defs(ctx, f, arg.id, node)
+    if not rd or not all(st is f.node for st, _v in rd):
+        return False
+    for atom, pol in _facts_at(ctx, f, node):
+        if not (pol and isinstance(atom, ast.Call) and isinstance(atom.func, ast.Name) and len(atom.args) == 2 and not atom.keywords):
+            continue
+        subject = strip_cast(atom.args[0])
+        if not (isinstance(subject, ast.Name) and subject.id == arg.id):
+            continue
+        if atom.func.id == "isinstance":
+            names = _type_names(atom.args[1])
+            if names and set(names) <= _MAPPING_TYPES:
+                return True
+        if atom.func.id == "hasattr" and _c(atom.args[1]) in ("items", "keys"):
+            return True
+    return False
+
+
+def _empty_container(v):
+    """"dict" / "set" / "list" for the construction of an empty container of that kind, else None."""
+    v = strip_cast(v)
+    if isinstance(v, ast.Dict) and not v.keys:
+        return "dict"
+    if isinstance(v, (ast.List, ast.Tuple)) and not v.elts:
+        return "list"
+    if isinstance(v, ast.Call) and not v.keywords:
+        name = (dotted(v.func) or "").split(".")[-1]
+        if name in ("dict", "OrderedDict") and not v.args or name == "defaultdict" and len(v.args) <= 1:
+            return "dict"
+        if name in ("set",) and not v.args:
+            return "set"
+        if name in ("list", "deque") and not v.args:
+            return "list"
+    return None
+
+
+def _relay_class(ctx, f, name, kind, ps, depth):
+    """A local container that starts empty and is filled inside a loop over the items given (one level of relay): a dictionary filled by
+    name / a set keeps one entry per name ("lossy"); a list filled item by item is not followed further ("unknown"); a container that no
+    loop over a parameter fills is not what the rule talks about ("other")."""
+    out = set()
+    for loop in [s for s in statements(f.node) if isinstance(s, (ast.For, ast.AsyncFor))]:
+        fills = False
+        for st in loop.body:
+            for n in ast.walk(st):
+                if isinstance(n, ast.Subscript) and isinstance(n.ctx, ast.Store) and isinstance(n.value, ast.Name) and n.value.id == name:
+                    fills = True
+                elif isinstance(n, ast.Call) and isinstance(n.func, ast.Attribute) and n.func.attr in _GROWERS and isinstance(n.func.value, ast.Name) and n.func.value.id == name:
+                    fills = True
+        if not fills:
+            continue
+        inner = _given_class(ctx, f, loop.iter, loop, ps, frozenset(id(x) for b in loop.body for x in ast.walk(b)), depth + 1)
+        if all(s == "other" for s, _w in inner):
+            continue
+        out |= {(s, w) for s, w in inner if s not in ("given", "other")}
+        if kind in ("dict", "set"):
+            out.add(("lossy", f"the items are first collected in the {kind} `{name}`, filled inside `for {src(loop.target)[:30]} in {src(loop.iter)[:30]}`: a {kind} keeps one entry per name"
+                     + (" (the position of the first, the value of the last)" if kind == "dict" else "")))
+        else:
+            out.add(("unknown", f"the items are first collected in the list `{name}`; how it is filled is not followed"))
+    return out or {("other", "")}
+
+
+def _given_class(ctx, f, e, at, ps, skip=frozenset(), depth=0):
+    """How the iterable `e` (evaluated at statement/expression `at` of f) relates to the items a caller gave: a set of (status, reason):
+    "given"   - a parameter of f itself, possibly through wrappers that keep every element and the order (`x or []`, list / tuple / iter /
+                enumerate, `.items()` / `.copy()` of the object given, an identity slice, a comprehension without a filter);
+    "lossy"   - through a projection of `_COLLAPSING`, a dict / set comprehension, a reversing or cutting slice;
+    "unknown" - rooted in a parameter, through something the rule does not know;
+    "other"   - not rooted in a parameter of f (a local collection, an attribute of an object given: not what this rule talks about).
+    Definitions are followed flow-sensitively (reaching definitions); `skip` are statements whose definitions do not count (the body of the
+    loop whose iterable is judged: the iterable is evaluated once, before the first iteration)."""
+    e = strip_cast(e)
+    if depth > 8:
+        return {("unknown", "definitions nested too deeply")}
+
+    def sub(x, where=None):
+        return _given_class(ctx, f, x, where if where is not None else at, ps, skip, depth + 1)
+
+    def through(inner, status, why):
+        """the verdict of a wrapper of `inner`"""
+        return {("other", "")} if all(s == "other" for s, _w in inner) else ({(s, w) for s, w in inner if s != "given" and s != "other"} | {(status, why)})
+
+    if isinstance(e, ast.Name):
+        rd = [(st, v) for st, v in q_reaching_defs(ctx, f, e.id, at) if id(st) not in skip]
+        if not rd:
+            return {("given", "") if e.id in ps and not assignments_to(f.node, e.id) else ("other", "")}  # *args / **kwargs
+        out = set()
+        for st, v in rd:
+            if st is f.node:
+                out.add(("given", "") if e.id in ps else ("other", ""))
+            elif v is None:
+                out.add(("other", ""))  # a loop variable, an unpacked element, a with-target ...
+            elif _empty_container(v) is not None:
+                out |= _relay_class(ctx, f, e.id, _empty_container(v), ps, depth)
+            else:
+                out |= sub(v, st)
+        return out
+    if isinstance(e, ast.NamedExpr):
+        return sub(e.value)
+    if isinstance(e, ast.BoolOp) and isinstance(e.op, ast.Or) and all(_is_empty_const(v) for v in e.values[1:]):
+        return sub(e.values[0])
+    if isinstance(e, ast.IfExp):
+        alts = [x for x in (e.body, e.orelse) if not _is_empty_const(x)]
+        out = set()
+        for x in alts:
+            out |= sub(x)
+        return out or {("other", "")}
+    if isinstance(e, ast.Starred):
+        return sub(e.value)
+    if isinstance(e, ast.Call):
+        name = (dotted(e.func) or "").split(".")[-1] if dotted(e.func) else (e.func.attr if isinstance(e.func, ast.Attribute) else None)
+        first = e.args[0] if e.args else None
+        if isinstance(e.func, ast.Name) and name in _AS_GIVEN_CALLS and first is not None and len(e.args) == 1 and not e.keywords:
+            return sub(first)
+        if isinstance(e.func, ast.Attribute) and name in ("items", "copy") and not e.args and not e.keywords:
+            return sub(e.func.value)
+        known_home = isinstance(e.func, ast.Name) or (isinstance(e.func, ast.Attribute) and (dotted(e.func.value) or "").split(".")[-1] in _COLLAPSING_HOMES)
+        if name in _COLLAPSING and first is not None and known_home:
+            inner = sub(first)
+            if name in _MAPPING_MAKERS and len(e.args) == 1 and not e.keywords and _mapping_fact(ctx, f, e, first):
+                return inner  # a copy of a mapping has the entries of the mapping, in its order
+            return through(inner, "lossy", f"`{src(e)[:60]}`: {_COLLAPSING[name]}")
+        inner = set()
+        for x in list(e.args) + [k.value for k in e.keywords] + ([e.func.value] if isinstance(e.func, ast.Attribute) else []):
+            inner |= sub(x)
+        return through(inner or {("other", "")}, "unknown", f"`{src(e)[:60]}` is not a call the rule knows")
+    if isinstance(e, (ast.DictComp, ast.SetComp)):
+        inner = set()
+        for gen in e.generators:
+            inner |= sub(gen.iter)
+        what = "a dict comprehension keeps one entry per key" if isinstance(e, ast.DictComp) else "a set comprehension keeps one element per value and has no order of its own"
+        return through(inner, "lossy", f"`{src(e)[:60]}`: {what}")
+    if isinstance(e, (ast.ListComp, ast.GeneratorExp)):
+        inner = set()
+        for gen in e.generators:
+            inner |= sub(gen.iter)
+        if len(e.generators) == 1 and not e.generators[0].ifs:
+            return inner
+        return through(inner, "unknown", f"`{src(e)[:60]}` filters or combines the items")
+    if isinstance(e, ast.Subscript) and isinstance(e.slice, ast.Slice):
+        inner = sub(e.value)
+        lo, hi, step = (None if b is None else _const(ctx, f, b) if _const(ctx, f, b) is not None else _UNKNOWN for b in (e.slice.lower, e.slice.upper, e.slice.step))
+        if _UNKNOWN in (lo, hi, step):
+            return through(inner, "unknown", f"the slice `{src(e)[:60]}` has a bound that is not a constant")
+        if isinstance(step, int) and step < 0:
+            return through(inner, "lossy", f"`{src(e)[:60]}`: a slice with a negative step yields the items back to front")
+        if (isinstance(lo, int) and lo != 0) or hi is not None or step not in (None, 1):
+            return through(inner, "lossy", f"`{src(e)[:60]}`: the slice leaves out items of a list that is long enough")
+        return inner
+    if any(n in ps for n in names_in(e)):
+        inner = set()
+        for n in ast.walk(e):
+            if isinstance(n, ast.Name) and n.id in ps:
+                inner |= sub(n)
+        if isinstance(e, ast.Attribute) or (isinstance(e, ast.Subscript) and not isinstance(e.slice, ast.Slice)):
+            return {("other", "")}  # a part of an object given, not the items given
+        return through(inner, "unknown", f"`{src(e)[:60]}` is not an expression the rule knows")
+    return {("other", "")}
+
+
+def _adds_to_block(ctx, h, _memo={}):
+    """Does the package function h add a node to `self.tree.children` (itself, or by delegating to a helper that does)?"""
+    key = (id(ctx), h.fq)
+    if key not in _memo:
+        _memo[key] = False  # recursion guard
+        _memo[key] = bool(h.cls) and (bool(_appended(h, lambda d: d == TREE + ".children")) or _helper_shape(ctx, h) is not None)
+    return _memo[key]
+
+
+def _statement_sinks(ctx, f):
+    """The places of f where a statement is added to a block: (node, description) - additions to `self.tree.children` (append / extend /
+    += / insert), calls of package methods that add to the block they are called on, calls of an attribute of the block looked up by name
+    (`getattr(self, option)(..)`)."""
+    out = [(c, "addition to the children of the block") for c, _r, _x in _appended(f, lambda d: d == TREE + ".children")]
+    seen = {id(c) for c, _d in out}
+    for c in fn_calls(f.node):
+        if id(c) in seen:
+            continue
+        if isinstance(c.func, ast.Attribute) and c.func.attr in ("insert", "extend") and dotted(_inl(f, c.func.value)) == TREE + ".children":
+            out.append((c, "addition to the children of the block"))
+            continue
+        cal = ctx.rs.resolve_call(f, c)
+        if cal.kind == "func" and cal.func is not None and cal.func.module.name == f.module.name and cal.func is not f and _adds_to_block(ctx, cal.func):
+            out.append((c, f"call of {cal.func.qualname}"))
+            continue
+        if isinstance(c.func, ast.Name):
+            os_ = reaching_origins(ctx, f, c.func, c)
+            if os_ and all(_is_call(o, "getattr") and isinstance(o.func, ast.Name) and o.args and dotted(strip_cast(o.args[0])) == "self" for o in os_):
+                out.append((c, "call of a builder attribute of the block looked up by name"))
+    for s in statements(f.node):
+        if isinstance(s, ast.AugAssign) and isinstance(s.op, ast.Add) and dotted(_inl(f, s.target)) == TREE + ".children" and id(s) not in seen:
+            out.append((s, "addition to the children of the block"))
+    return out
+
+
+def _loop_carried(ctx, f, loop):
+    """Names whose value at the start of an iteration may come from an earlier iteration: defined before the loop and assigned, or changed
+    in place by a method call / item store, inside it."""
+    inside = [n for st in loop.body for n in ast.walk(st)]
+    changed = set()
+    for n in inside:
+        if isinstance(n, (ast.Assign, ast.AugAssign, ast.AnnAssign)):
+            for t in (n.targets if isinstance(n, ast.Assign) else [n.target]):
+                for x in ast.walk(t):
+                    if isinstance(x, ast.Name):
+                        changed.add(x.id)
+        elif isinstance(n, ast.NamedExpr) and isinstance(n.target, ast.Name):
+            changed.add(n.target.id)
+        elif isinstance(n, ast.Call) and isinstance(n.func, ast.Attribute) and n.func.attr in _GROWERS and isinstance(n.func.value, ast.Name):
+            changed.add(n.func.value.id)
+    own = {x.id for x in ast.walk(loop.target) if isinstance(x, ast.Name)}
+    body_ids = {id(n) for n in inside}
+    out = set()
+    for name in changed - own:
+        rd = q_reaching_defs(ctx, f, name, loop)
+        if any(id(st) not in body_ids and st is not loop for st, _v in rd):
+            out.add(name)
+    return out
+
+
+def r12(ctx):
+    """A builder method that is given a list of items ((name, value) pairs for header / parameter / strrep, option names, steps) adds one
+    statement per item, in the order given.  The text of the same profile has one statement per item, in that order, and the grammar lets a
+    name be repeated (two `header "Set-Cookie" ..` lines, the same parameter twice, two strrep rules for one string) - so a built profile is
+    the parsed one, and its dictionary view lists what was given, only if the loop that adds the statements runs over the items *as given*:
+    not over a projection that keeps one item per name or reorders them, and without passing an item over."""
+    import networkx as nx
+
+    mod = ctx.repo.module(MOD)
+    located = 0
+    for f in [g for g in mod.funcs.values() if g.cls]:
+        sinks = _statement_sinks(ctx, f)
+        if not sinks:
+            continue
+        ps = _all_params(f.node)
+        fv = FuncView.of(f.node)
+        cfg = ctx.cfg(f)
+        # additions at a fixed position
+        for c, _d in sinks:
+            if isinstance(c, ast.Call) and isinstance(c.func, ast.Attribute) and c.func.attr == "insert" and len(c.args) == 2:
+                pos = _inl(f, c.args[0])
+                text = "a statement is added at the end of the block"
+                if _is_call(pos, "len") and len(pos.args) == 1 and dotted(_inl(f, pos.args[0])) == TREE + ".children":
+                    ctx.ob("R12", "LOOP", f, text, True, "insert(len(children), ..) is append")
+                elif isinstance(_const(ctx, f, pos), int):
+                    ctx.ob("R12", "LOOP", f, text, False, f"`{src(c)[:70]}` puts the statement at the fixed position {_const(ctx, f, pos)} of the block: statements come out in another order than the "
+                           "builder calls / the items were given in (the text of the same profile has them in the order written)", c)
+                else:
+                    ctx.undecided("R12", "LOOP", f, text, f"the position `{src(pos)[:40]}` of the insertion is not understood", c)
+        if not ps:
+            continue
+        sink_ids = {id(c) for c, _d in sinks}
+        subjects = []  # (kind, node, iterable, at, filters)
+        for loop in [s for s in statements(f.node) if isinstance(s, (ast.For, ast.AsyncFor))]:
+            if any(id(n) in sink_ids for st in loop.body for n in ast.walk(st)):
+                subjects.append(("loop", loop, loop.iter, loop, None))
+        for c, _d in sinks:
+            arg = c.args[0] if isinstance(c, ast.Call) and c.args else c.value if isinstance(c, ast.AugAssign) else None
+            comp = _inl(f, arg) if arg is not None else None
+            if isinstance(comp, (ast.ListComp, ast.GeneratorExp)) and not (isinstance(c, ast.Call) and c.func.attr == "append"):
+                subjects.append(("comprehension", c, comp.generators[0].iter, fv.stmt_of(c) if not isinstance(c, ast.stmt) else c, comp))
+        for kind, node, it, at, comp in subjects:
+            skip = frozenset(id(st) for b in node.body for st in ast.walk(b)) if kind == "loop" else frozenset()
+            cls_ = _given_class(ctx, f, it, at, ps, skip)
+            stati = {s for s, _w in cls_}
+            if stati <= {"other"}:
+                continue  # not a loop over items given to this function
+            located += 1
+            text = "the statements are added for the items as given (each of them, in their order)"
+            lossy = sorted(w for s, w in cls_ if s == "lossy")
+            unknown = sorted(w for s, w in cls_ if s == "unknown")
+            if lossy:
+                ctx.ob("R12", "LOOP", f, text, False, f"the {kind} that adds the statements does not run over the items given but over a projection of them - {lossy[0]} - so for a list that "
+                       "repeats a name (two Set-Cookie headers, the same parameter twice, two strrep rules for one string: all of them legal in a profile) statements are missing or come in another order, "
+                       "while the same profile parsed from text has one statement per item in the order written: tree, text and dictionary view differ", node)
+            elif unknown or "other" in stati:
+                ctx.undecided("R12", "LOOP", f, text, f"the iterable `{src(it)[:50]}` is derived from a parameter in a way the rule does not understand" + (f": {unknown[0]}" if unknown else ""), node)
+            else:
+                ctx.ob("R12", "LOOP", f, text, True, f"the {kind} runs over the parameter itself (through wrappers that keep every element and the order)")
+            # every item passes an addition
+            text = "every item given passes an addition to the block"
+            if kind == "comprehension":
+                if len(comp.generators) == 1 and not comp.generators[0].ifs:
+                    ctx.ob("R12", "EXIT", f, text, True, "a comprehension without a filter makes one node per item")
+                else:
+                    ctx.undecided("R12", "EXIT", f, text, "the comprehension has a filter or several generators", node)
+                continue
+            loop = node
+            inside = {id(n) for n in ast.walk(loop)}
+            mine = [c for c, _d in sinks if id(c) in inside]
+            sts = [c if isinstance(c, ast.stmt) else fv.stmt_of(c) for c in mine]
+            if not cfg.has(loop) or any(s is None or not cfg.has(s) for s in sts):
+                ctx.undecided("R12", "EXIT", f, text, "an addition stands in a statement the control-flow graph does not model", loop)
+                continue
+            sink_nodes = {cfg.node(s) for s in sts}
+            head, src_n = cfg.node(loop), cfg.edge_node(loop, "iter")
+            inner_loops = [n for st in loop.body for n in ast.walk(st) if isinstance(n, (ast.For, ast.AsyncFor, ast.While))]
+            inner_ids = {id(x) for l in inner_loops for x in ast.walk(l)}
+            breaks = {cfg.node(n) for st in loop.body for n in ast.walk(st) if isinstance(n, ast.Break) and id(n) not in inner_ids and cfg.has(n)}
+            targets = {head, EXIT} | breaks
+            dg = cfg.g.copy()
+            # the normal continuation of a statement is taken to be possible: edges into exception handlers are no evidence
+            dg.remove_edges_from([(p, n) for n, st in cfg.stmt.items() if isinstance(st, ast.ExceptHandler) for p in list(cfg.g.predecessors(n))])
+            for b in breaks:
+                dg.remove_edges_from(list(dg.out_edges(b)))
+            drops = set(targets)
+            changed = True
+            while changed:
+                changed = False
+                for n in dg.nodes:
+                    if n in drops or n in sink_nodes:
+                        continue
+                    succ = list(dg.successors(n))
+                    if succ and all(x in drops for x in succ):
+                        drops.add(n)
+                        changed = True
+            may = dg.copy()
+            may.remove_nodes_from(sink_nodes)
+
+            def passes_over(n):
+                return n in may and any(t in may and nx.has_path(may, n, t) for t in targets)
+
+            if src_n in drops:
+                ctx.ob("R12", "EXIT", f, text, False, "the next item (or the end of the method) is reached from the start of an iteration without an addition to the block, whatever the tests of the loop body say: "
+                       "items given are passed over silently and are missing from the built tree, text and dictionary view", loop)
+                continue
+            if not passes_over(src_n):
+                ctx.ob("R12", "EXIT", f, text, True, "every path through the loop body that ends normally passes an addition to the block (paths that raise are loud, not silent)")
+                continue
+            carried = _loop_carried(ctx, f, loop)
+            guilty = None
+            for n, st in cfg.stmt.items():
+                if id(st) in inside and st is not loop and isinstance(st, (ast.If, ast.While)):
+                    names = names_in(_inl(f, st.test, stop=carried)) & carried
+                    if names and any(passes_over(cfg.edge_node(st, lab)) for lab in ("true", "false")) and not all(passes_over(cfg.edge_node(st, lab)) for lab in ("true", "false")):
+                        guilty = (st, sorted(names))
+                        break
+            if guilty:
+                ctx.ob("R12", "EXIT", f, text, False, f"whether an item is added is decided by `{src(guilty[0].test)[:60]}`, which reads {guilty[1]} - state the loop carries over from the items before: "
+                       "an item is left out because of what was given earlier (a repeated name, a count), while the text of the same profile has one statement per item", guilty[0])
+            else:
+                ctx.undecided("R12", "EXIT", f, text, "a path through the loop body that passes no addition exists, through tests the rule does not decide", loop)
+    if not located:
+        ctx.undecided("R12", "LOOP", f"{MOD}.py", "the statements are added for the items as given (each of them, in their order)", "no loop over a parameter that adds statements to a block located")
